@@ -104,7 +104,7 @@ structure K (s : St) : Prop where
   -- the round's input set is empty between rounds
   idleInputs : (s.pc = Pc.idle ∨ s.pc = Pc.endround) → s.inputs = []
   -- the ghosts and the output stream tell the same story
-  outsDeliv : ∀ x, x ∈ (deliveredOf s.outs).1 ↔ x ∈ s.delivered
+  outsDeliv : (deliveredOf s.outs).1 = s.delivered
   outsCur : (deliveredOf s.outs).2 = (if s.pc.isRunning then some (sortNat s.inputs) else none)
   outsWaits : waitIds s.outs = s.retLog.map (·.1)
   -- calls of the wrapped function are serial and never empty
